@@ -432,6 +432,14 @@ func (v *VecDense) AddVec(a, b Vector) {
 		}
 	}
 
+	// At most one of a and b is a *VecDense here; it still must
+	// not overlap the receiver.
+	if arv, ok := aU.(*VecDense); ok && v != arv {
+		v.checkOverlap(arv.mat)
+	}
+	if brv, ok := bU.(*VecDense); ok && v != brv {
+		v.checkOverlap(brv.mat)
+	}
 	for i := 0; i < ar; i++ {
 		v.setVec(i, a.AtVec(i)+b.AtVec(i))
 	}
@@ -475,6 +483,14 @@ func (v *VecDense) SubVec(a, b Vector) {
 		}
 	}
 
+	// At most one of a and b is a *VecDense here; it still must
+	// not overlap the receiver.
+	if arv, ok := aU.(*VecDense); ok && v != arv {
+		v.checkOverlap(arv.mat)
+	}
+	if brv, ok := bU.(*VecDense); ok && v != brv {
+		v.checkOverlap(brv.mat)
+	}
 	for i := 0; i < ar; i++ {
 		v.setVec(i, a.AtVec(i)-b.AtVec(i))
 	}
@@ -524,6 +540,14 @@ func (v *VecDense) MulElemVec(a, b Vector) {
 		}
 	}
 
+	// At most one of a and b is a *VecDense here; it still must
+	// not overlap the receiver.
+	if arv, ok := aU.(*VecDense); ok && v != arv {
+		v.checkOverlap(arv.mat)
+	}
+	if brv, ok := bU.(*VecDense); ok && v != brv {
+		v.checkOverlap(brv.mat)
+	}
 	for i := 0; i < ar; i++ {
 		v.setVec(i, a.AtVec(i)*b.AtVec(i))
 	}
@@ -573,6 +597,14 @@ func (v *VecDense) DivElemVec(a, b Vector) {
 		}
 	}
 
+	// At most one of a and b is a *VecDense here; it still must
+	// not overlap the receiver.
+	if arv, ok := aU.(*VecDense); ok && v != arv {
+		v.checkOverlap(arv.mat)
+	}
+	if brv, ok := bU.(*VecDense); ok && v != brv {
+		v.checkOverlap(brv.mat)
+	}
 	for i := 0; i < ar; i++ {
 		v.setVec(i, a.AtVec(i)/b.AtVec(i))
 	}
